@@ -49,7 +49,7 @@ func takeSnap(o *object, ctxs ...context.Context) recSnap {
 		}
 	}
 	// ... and the closures Compile hides the record behind -> what they lead to
-	short := strings.NewReplacer("*.i{0}{0}*.i{0}*", ".runner", ".action*.checkOption{0}*", ".action.runner", ".runnable*.i{0}{0}*.i{0}*", ".runner")
+	short := strings.NewReplacer("*.compiled*.runner*", ".runner", ".action*.runner*", ".action.runner")
 	for j, l := range lines {
 		lines[j] = short.Replace(l)
 	}
